@@ -40,10 +40,22 @@ def run(ctx):
     nsh = 4 if q else 8
     traces = [os.path.join(ctx.work, "c01-%d.ndjson" % i) for i in range(nsh)]
     stats = [None] * nsh
+    died = []
 
     def drive(i):
         def f():
             rc, out, err = ctx.run_harness(exe, ["c01", i, nsh], trace=traces[i], timeout=1500)
+            if rc < 0 or rc in (42, 134, 139):
+                # the process hosting the real front-ends was killed by a signal while serving WELL-FORMED requests
+                rp = os.path.join(ctx.replays, "c01-died-shard%d.txt" % i)
+                open(rp, "w").write("input_drv c01 %d %d rc=%s\n%s" % (i, nsh, rc, (err or "")[-4000:]))
+                died.append((rc, rp))
+                # keep only the complete executions of the truncated trace
+                if os.path.exists(traces[i]):
+                    lines = open(traces[i]).read().split("\n")[:-1]
+                    last = max([k for k, ln in enumerate(lines) if '"e":"Reset"' in ln] or [0])
+                    open(traces[i], "w").write("\n".join(lines[:last]) + ("\n" if last else ""))
+                return None
             if rc != 0:
                 return "input_drv c01 shard %d failed rc=%s %s" % (i, rc, (err or "")[-500:])
             stats[i] = json.loads(out.strip().splitlines()[-1])
@@ -52,6 +64,8 @@ def run(ctx):
     for r in inputlib.parallel([drive(i) for i in range(nsh)], nsh):
         if r:
             ctx.undecided.append(str(r))
+    for rc, rp in died:
+        ctx.violation("c01-service-died-sig%d" % abs(rc), "the process serving well-formed requests died (signal %d): %s" % (abs(rc), open(rp).read()[-300:].replace("\n", " ")), rp)
     conns = sum(s["connections"] for s in stats if s)
     ctx.extra["connections"] = conns
     ctx.extra["cut_points_sent"] = sum(s["cut_points"] for s in stats if s)
